@@ -3011,7 +3011,7 @@ MANIFEST = {
             'of a Box object its conversions are those of its current cell, so an existing Box updated from a model '
             'and a System written with box-scaled positions behave like freshly constructed objects; every call form '
             'that describes the same properties and units writes the same tree, the bare unit list is aligned with the '
-            "object's own properties (system_model_unit_list_roundtrip), the documented refusals; the object '
+            "object's own properties (system_model_unit_list_roundtrip), the documented refusals; the object "
             'invariants are established by the setters (cleanVects_idem, cijSet_idem); the stored physical value is '
             'independent of the working units at write vs read time, and under two configurations every number '
             '(value, error, box length, box-scaled property, elastic constant) comes back times the C09 dimension '
